@@ -7,6 +7,8 @@ import (
 )
 
 const (
+	// nRNNActivations is the number of activation functions the operator uses.
+	nRNNActivations = 1
 	MinRNNInputs = 3
 	MaxRNNInputs = 6
 )
@@ -104,6 +106,10 @@ func (r *RNN) Apply(inputs []tensor.Tensor) ([]tensor.Tensor, error) {
 	// index 0.
 	if err = Ht.Reshape(Ht.Shape().Clone()[1:]...); err != nil {
 		return nil, err
+	}
+
+	if len(r.activations) < nRNNActivations {
+		return nil, ops.ErrInvalidAttribute(ops.ActivationsAttr, r)
 	}
 
 	activation, err := ops.GetActivation(r.activations[0])
